@@ -41,14 +41,14 @@ def run(v):
             if e['old'] not in s:
                 return v, 'STALE', 'pattern not found in ' + e['file'] + ' (the source moved: update selftest/variants.json)'
             open(p, 'w').write(s.replace(e['old'], e['new'], 1))
-        b = subprocess.run(['go', 'build', './...'], cwd=d, env=env, capture_output=True, text=True)
-        if b.returncode != 0:
-            return v, 'NOBUILD', b.stderr[-300:]
+        # no separate `go build`: the analyser type-checks every package itself and refuses a tree that does not compile
         os.makedirs(vd, exist_ok=True)
         # recorded findings stay recorded findings in the variant (a moved site is re-reported: keyed by construct)
         shutil.copy(os.path.join(root, 'known_findings.json'), os.path.join(vd, 'known_findings.json'))
-        r = subprocess.run([os.path.join(root, 'bin/uaverif'), '-repo', d, '-verif', vd, '-prop', ','.join(v['props'])], capture_output=True, text=True, env=env)
+        r = subprocess.run([os.environ.get('UAVERIF_BIN') or os.path.join(root, 'bin/uaverif'), '-repo', d, '-verif', vd, '-prop', ','.join(v['props'])], capture_output=True, text=True, env=env)
         out = r.stdout
+        if 'ERROR cannot analyse' in out:
+            return v, 'NOBUILD', out[-300:]
         viol = [l for l in out.splitlines() if l.startswith('  C') ]
         has = 'VIOLATION' in out
         if v['kind'] == 'mutant':
